@@ -143,6 +143,9 @@ PROPERTIES = {
             {"name": "random_programs", "cases": FE.random_cases(seed, 1200 if tier == "quick" else 12000), "mask": M_GRAD,
              "what": "seeded random programs over add/sub/mul/div/axpy/neg/scale/powf/sum/reshape/matmul/relu/user ops with broadcasting, clones, drops, flag changes, several passes and data-dependent branches (cmp / when)",
              "require": {"passes": 1000}},
+            {"name": "suite_derived", "cases": FE.suite_derived_cases(), "mask": M_GRAD | {"values", "dims", "tracked-flag", "immutable"},
+             "what": "the README / module-doc loop with its data-dependent branch (four parameter sets) and the graphs of the repository's own backward tests, with every value, flag and gradient validated at every step",
+             "require": {"passes": 15}},
             {"name": "real_programs", "cases": FR.real_program_cases(tier, seed), "spec": "TraceReal", "real": True,
              "mask": M_GRAD | {"real-value"},
              "what": "real domain: random programs of up to 8 operations mixing exp, ln, sigmoid, softmax, division, powf, reciprocal with the exact operations, one or two passes",
@@ -194,10 +197,10 @@ PROPERTIES = {
         "rule": "a case = one history; distinct by program hash; non-trivial = at least two passes or a pass after a flag change / clear",
     },
     "C11": {
-        "level_text": "AutodiffAbs: every reached node with operands is evaluated exactly once with the complete adjoint RefAdj and after all its in-pass consumers; TLC checks EvalOnce / EvalComplete / EvalAll on AutodiffImpl for all graphs within the bound, and the trace specification checks the log of derivative-closure invocations (node, received adjoint) of graphs built only from user operations on the real crate: same set, no repetition, each adjoint complete, consumers first; self-product chains to depth 60 (2^60 paths) under an invocation budget",
+        "level_text": "AutodiffAbs: every reached node with operands is evaluated exactly once with the complete adjoint RefAdj and after all its in-pass consumers; TLC checks EvalOnce / EvalComplete / EvalAll on AutodiffImpl for all graphs within the bound and, under weak fairness, that every started pass finishes (PassesFinish), and the trace specification checks the log of derivative-closure invocations (node, received adjoint) of graphs built only from user operations on the real crate: same set, no repetition, each adjoint complete, consumers first; self-product chains to depth 60 (2^60 paths) under an invocation budget",
         "level_note": ENGINE_NOTE + "; built-in operations' closures are not observable without hooks and are covered through their results (C01)",
         "technique": "TLC model checking (EvalOnce/EvalComplete/EvalAll) + TLC trace validation of logged derivative invocations on the real crate",
-        "mc": lambda tier: [mc("MC_Engine_custom")],
+        "mc": lambda tier: [mc("MC_Engine_custom"), mc("MC_Engine_live")],
         "families": lambda tier, seed: [
             {"name": "user_op_graphs", "cases": FE.c11_cases(tier, seed), "mask": M_EVAL,
              "what": "self-product and self-sum chains of user operations up to depth 60, random DAGs of cadd/cmul/csq/cfma with fan-out, diamonds, mixed tracking, second passes",
@@ -241,6 +244,9 @@ PROPERTIES = {
                        mask=M_OWN, exhaustive=True, require={"owned": 500}),
             tlc_family("tlc_ownership_sim", "GenEngine_hist", "C18b", simulate=(150 if tier == "quick" else 1500, 20), seed=seed + 2,
                        mask=M_OWN, require={"owned": 1000}),
+            {"name": "training_loops", "cases": FM.c14_cases(tier, seed + 5), "mask": M_OWN,
+             "what": "model loops: after the next forward the previous iteration's input and the clones of the old parameters must own their buffers again (nothing of the finished iteration is retained)",
+             "require": {"owned": 100}},
         ],
         "rule": "a case = one history ending in ownership probes; distinct by program hash; non-trivial = at least one Vec::from where the specification demands sole ownership",
     },
